@@ -69,6 +69,7 @@ struct Ser {
         // constant-foldable (macros, enum constants, sizeof)
         o["k"] = "lit"; o["v"] = (int64_t)R.Val.getInt().getExtValue();
         if (auto *DR = dyn_cast<DeclRefExpr>(E->IgnoreParenImpCasts())) o["name"] = DR->getDecl()->getNameAsString();
+        else if (auto *UE = dyn_cast<UnaryExprOrTypeTraitExpr>(E->IgnoreParenImpCasts())) { if (UE->getKind() == UETT_SizeOf) o["sizeof"] = ty(UE->getTypeOfArgument()); }
         else { std::string mn = innermost_macro(S->getBeginLoc()); if (!mn.empty()) o["name"] = mn; }
         return std::move(o);
       }
@@ -158,6 +159,7 @@ struct V : RecursiveASTVisitor<V> {
     { const char *root = getenv("HTPFACTS_ROOT"); std::string r = root ? root : "/repo"; if (f.compare(0, r.size(), r) != 0) return true; }
     json::Object o; o["name"] = Ser::recname(RD); json::Array fs;
     for (auto *F : RD->fields()) { json::Object fo; fo["name"] = F->getNameAsString(); fo["t"] = F->getType().getCanonicalType().getAsString(); fs.push_back(std::move(fo)); }
+    if (!RD->isInvalidDecl() && !RD->isDependentType()) o["size"] = (int64_t)C.getTypeSizeInChars(C.getRecordType(RD)).getQuantity();
     o["fields"] = std::move(fs); Recs.push_back(std::move(o)); return true;
   }
   bool VisitFunctionDecl(FunctionDecl *F) {
